@@ -16,6 +16,8 @@ import (
 	"github.com/LiskHQ/lisk-engine/pkg/blockchain"
 	"github.com/LiskHQ/lisk-engine/pkg/codec"
 	"github.com/LiskHQ/lisk-engine/pkg/crypto"
+	ledb "github.com/LiskHQ/lisk-engine/pkg/db"
+	"github.com/LiskHQ/lisk-engine/pkg/db/batchdb"
 	"github.com/LiskHQ/lisk-engine/pkg/trie/smt"
 
 	"verifharness/internal/hx"
@@ -54,8 +56,12 @@ type rootRec struct {
 	Roots   []string `json:"roots"`
 	Err     string   `json:"err,omitempty"`
 	Panic   string   `json:"panic,omitempty"`
-	SH      int      `json:"sh,omitempty"`  // sub-tree height if not the default
-	KL0     bool     `json:"kl0,omitempty"` // the trie is created / re-opened with keyLength 0 (= DefaultKeyLength 32)
+	SH      int      `json:"sh,omitempty"` // sub-tree height if not the default
+	// Prod: the same history on the PRODUCTION store: batchdb over a pebble DB whose Get never sees the batch of the running
+	// Update; the batch is written between Updates; every batch runs on a trie re-created from the root after the write
+	ProdRoots []string `json:"prodroots"`
+	ProdErr   string   `json:"proderr,omitempty"`
+	KL0       bool     `json:"kl0,omitempty"` // the trie is created / re-opened with keyLength 0 (= DefaultKeyLength 32)
 }
 
 type wq [3]string // key, value, bitmap
@@ -80,6 +86,11 @@ type proofRec struct {
 	Obs     []vobs   `json:"obs"`
 	Err     string   `json:"err,omitempty"`
 	Panic   string   `json:"panic,omitempty"`
+	SH      int      `json:"sh,omitempty"` // sub-tree height if not the default
+	// proof generated on the production store (batchdb over pebble, batches written between Updates)
+	ProdSibs []string `json:"prodsibs"`
+	ProdQs   []wq     `json:"prodqs"`
+	ProdErr  string   `json:"proderr,omitempty"`
 }
 
 // pendingPath holds the input of the case being run: a panic inside a goroutine spawned by the code under test cannot be
@@ -316,7 +327,65 @@ func runRootKL(kl, klArg int, gen string, batches [][]wop, reopen []bool, sh int
 		}
 		rec.Roots = append(rec.Roots, hx2(root))
 	}
+	rec.ProdRoots, _, rec.ProdErr = prodRun(kl, klArg, sh, batches, reopen, nil)
+	if rec.ProdRoots == nil {
+		rec.ProdRoots = []string{}
+	}
 	return rec
+}
+
+var smtPrefix = []byte{0x03}
+
+// prodRun replays the batches with production store semantics (pkg/framework/handler.go: tree.Update on
+// batchdb.NewWithPrefix(stateDB, batch, prefix), then stateDB.Write(batch)); returns the root after every batch and, if keys
+// are given, the proof generated on a trie re-opened from the last root.
+func prodRun(kl, klArg, sh int, batches [][]wop, reopen []bool, keys [][]byte) (roots []string, proof *smt.Proof, errs string) {
+	database, err := ledb.NewInMemoryDB()
+	if err != nil {
+		return nil, nil, "open: " + err.Error()
+	}
+	defer database.Close()
+	mk := func(root []byte) trieT {
+		t := smt.NewTrie(root, klArg)
+		if sh != 0 {
+			t.SetSubtreeHeight(uint8(sh))
+		}
+		return t
+	}
+	var root []byte
+	t := mk(nil)
+	for i, b := range batches {
+		if reopen == nil || reopen[i] || i%2 == 1 {
+			t = mk(root)
+		}
+		ks, vs := split(b)
+		batch := database.NewBatch()
+		sdb := batchdb.NewWithPrefix(database, batch, smtPrefix)
+		var uerr error
+		if p := try(func() { root, uerr = t.Update(sdb, ks, vs) }); p != "" {
+			return roots, nil, "panic: " + p
+		}
+		if uerr != nil {
+			return roots, nil, "update: " + uerr.Error()
+		}
+		database.Write(batch)
+		roots = append(roots, hx2(root))
+	}
+	if keys == nil {
+		return roots, nil, ""
+	}
+	if root == nil {
+		root = crypto.Hash([]byte{})
+	}
+	rdb := batchdb.NewWithPrefix(database, database.NewBatch(), smtPrefix)
+	var perr error
+	if p := try(func() { proof, perr = mk(root).Prove(rdb, keys) }); p != "" {
+		return roots, nil, "panic: Prove: " + p
+	}
+	if perr != nil {
+		return roots, nil, "prove: " + perr.Error()
+	}
+	return roots, proof, ""
 }
 
 // finalMap applies the batches (first occurrence wins inside a batch) and returns the resulting map as one batch in
@@ -425,10 +494,18 @@ func flipBit(b []byte, i int) []byte {
 }
 
 func runProof(r *hx.Rng, kl int, gen string, batches [][]wop, keys [][]byte, tamper bool) proofRec {
-	rec := proofRec{K: "proof", KL: kl, Gen: gen, Batches: batches, Keys: hexs(keys), Sibs: []string{}, Qs: []wq{}, Obs: []vobs{}}
+	return runProofSH(r, kl, gen, batches, keys, tamper, 0)
+}
+
+// runProofSH: sh = sub-tree height of the storage layout (0 = default 8); roots and proofs must not depend on it
+func runProofSH(r *hx.Rng, kl int, gen string, batches [][]wop, keys [][]byte, tamper bool, sh int) proofRec {
+	rec := proofRec{K: "proof", KL: kl, Gen: gen, Batches: batches, Keys: hexs(keys), Sibs: []string{}, Qs: []wq{}, Obs: []vobs{}, SH: sh}
 	pending(rec)
 	db := newMem()
 	t := smt.NewTrie(nil, kl)
+	if sh != 0 {
+		t.SetSubtreeHeight(uint8(sh))
+	}
 	var root []byte
 	for _, b := range batches {
 		ks, vs := split(b)
@@ -443,6 +520,9 @@ func runProof(r *hx.Rng, kl int, gen string, batches [][]wop, keys [][]byte, tam
 	}
 	// prove on a trie re-opened from the root
 	t = smt.NewTrie(root, kl)
+	if sh != 0 {
+		t.SetSubtreeHeight(uint8(sh))
+	}
 	var proof *smt.Proof
 	var err error
 	if p := try(func() { proof, err = t.Prove(db, keys) }); p != "" {
@@ -454,6 +534,12 @@ func runProof(r *hx.Rng, kl int, gen string, batches [][]wop, keys [][]byte, tam
 		return rec
 	}
 	rec.Sibs, rec.Qs = toSibs(proof), toQs(proof)
+	rec.ProdSibs, rec.ProdQs = []string{}, []wq{}
+	if _, pp, perrs := prodRun(kl, kl, sh, batches, nil, keys); perrs != "" {
+		rec.ProdErr = perrs
+	} else if pp != nil {
+		rec.ProdSibs, rec.ProdQs = toSibs(pp), toQs(pp)
+	}
 	rec.Obs = append(rec.Obs, observe(keys, rec.Sibs, rec.Qs, root, 0, kl, len(keys) > 0, "honest"))
 	if !tamper || len(keys) == 0 {
 		return rec
@@ -707,7 +793,7 @@ func replay(o *hx.Out, path string, r *hx.Rng) {
 			for i, k := range g.Keys {
 				ks[i] = unhex(k)
 			}
-			o.Put(runProof(r, g.KL, g.Gen, g.Batches, ks, true))
+			o.Put(runProofSH(r, g.KL, g.Gen, g.Batches, ks, true, g.SH))
 		}
 	}
 }
@@ -745,9 +831,13 @@ func main() {
 		for j := range reopen {
 			reopen[j] = j > 0 && r.Intn(3) == 0
 		}
-		o.Put(runRoot(kl, mode, bs, reopen, 0))
-		// the same final map inserted in one shuffled batch into a fresh trie
-		o.Put(runRoot(kl, mode+"-final", [][]wop{finalMap(r, bs)}, []bool{false}, 0))
+		sh := 0
+		if i%3 == 1 { // a third of the histories on the 4-bit sub-tree layout: same roots, same re-opening behaviour
+			sh = 4
+		}
+		o.Put(runRoot(kl, mode, bs, reopen, sh))
+		// the same final map inserted in one shuffled batch into a fresh trie (other layout than above)
+		o.Put(runRoot(kl, mode+"-final", [][]wop{finalMap(r, bs)}, []bool{false}, 4-sh))
 	}
 	for i := 0; i < *nproof; i++ {
 		kl := kls[r.Intn(len(kls))]
@@ -758,7 +848,11 @@ func main() {
 		if r.Intn(3) == 0 {
 			nq = 1
 		}
-		o.Put(runProof(r, kl, mode, bs, pickQueries(r, g, bs, nq), true))
+		psh := 0
+		if i%3 == 1 {
+			psh = 4
+		}
+		o.Put(runProofSH(r, kl, mode, bs, pickQueries(r, g, bs, nq), true, psh))
 	}
 	// full 8-bit sub-tree: 256 keys differing in one byte under a shared prefix, then re-open, update/delete, no-op, prove
 	for i := 0; i < *nfull; i++ {
@@ -777,9 +871,9 @@ func main() {
 		pick := func() string { return b1[r.Intn(256)][0] }
 		b2 := []wop{{pick(), hx2(value(r))}, {pick(), ""}, {hx2(flipBit(unhex(pick()), kl*8-1-r.Intn(3))), hx2(value(r))}}
 		b3 := []wop{{b1[7][0], b1[7][1]}}
-		o.Put(runRoot(kl, "full-subtree", [][]wop{b1, b2, b3, {{pick(), ""}}}, []bool{false, true, false, true}, 0))
+		o.Put(runRoot(kl, "full-subtree", [][]wop{b1, b2, b3, {{pick(), ""}}}, []bool{false, true, false, true}, 4*(i%2)))
 		qk := [][]byte{unhex(pick()), unhex(pick()), flipBit(unhex(pick()), kl*8-1)}
-		o.Put(runProof(r, kl, "full-subtree", [][]wop{b1, b2}, qk, true))
+		o.Put(runProofSH(r, kl, "full-subtree", [][]wop{b1, b2}, qk, true, 4*((i+1)%2)))
 	}
 	// keyLength 0 = DefaultKeyLength: histories with 32-byte keys on tries created and re-opened with NewTrie(x, 0)
 	for i := 0; i < 3; i++ {
